@@ -24,7 +24,7 @@ META = {
         "xsdata.formats.dataclass.serializers.dict:DictEncoder.encode", "xsdata.utils.namespaces:build_qname", "xsdata.utils.namespaces:split_qname",
     ],
     "bounds": [
-        "histories of <= 3 (quick: third operation from 12 state-observing ones) / <= 4 (thorough) operations, each a selector into a pool of 34 operations (incl. one ENVIRONMENT step: a module with a second class for an already resolved qualified name is imported) (serialize / parse / encode / decode over ParentA, ParentB, Child, "
+        "histories of <= 3 (quick: third operation from 12 state-observing ones) / <= 4 (thorough) operations, each a selector into a pool of 36 operations (incl. one ENVIRONMENT step: a module with a second class for an already resolved qualified name is imported) (serialize / parse / encode / decode over ParentA, ParentB, Child, "
         "Holder with xsi:type, Wild with wildcard namespace memo, Lists, Basic; lookups without a target class; three failing calls), applied to ONE shared XmlContext, "
         "NodeParser (native and lxml seam handlers), EventGenerator, DictEncoder and DictDecoder; every call's outcome (value or exception class) is compared with the same call on fresh instances",
         "selector driven: every history within the bound is executed (the solver only prunes and enumerates); nothing here is value-symbolic",
@@ -128,11 +128,11 @@ def _qnames_doc(env, prefix_uri_pairs, handler="native"):
     return env.parsers[handler].parse(mutate.linearize(root), QNames)
 
 
-def _wother_doc(env, child_qname):
+def _wother_doc(env, child_qname, model=None):
     from harness.models import WOther
 
     root = mutate.Node("{urn:a}w", {}, None, None, [mutate.Node(child_qname, {}, "t")])
-    return env.parsers["native"].parse(mutate.linearize(root), WOther)
+    return env.parsers["native"].parse(mutate.linearize(root), model or WOther)
 
 
 def _foreign_xsi(env):
@@ -220,6 +220,9 @@ OPS = [
     ("ser Compound ['warm'] (a str only the str choice takes)", lambda e: _ser(e, Compound(choice=["warm"]))),
     ("ser Compound ['7'] (a str that the int choice takes too)", lambda e: _ser(e, Compound(choice=["7"]))),
     ("decode Compound {'choice': ['0.5', 'x']}", lambda e: e.dec.decode({"choice": ["0.5", "x"]}, Compound)),
+    ("parse ##any wildcard with {urn:a}item (a name another wildcard mode rejects)", lambda e: _wother_doc(e, "{urn:a}item", WAny)),
+    ("FAIL parse ##targetNamespace wildcard with {urn:c}item (a name another wildcard mode accepts)", lambda e: _wother_doc(e, "{urn:c}item", WTarget)),
+    ("decode {'q': 'x'} without a target class (lookup by field names; LateV2 once imported)", lambda e: e.dec.decode({"q": "x"}, None)),
 ]
 # operations that build metadata of the namespace-less class Child under different inherited namespaces
 _CHILD_NS_GROUP = {0: "urn:a", 2: "urn:a", 1: "urn:b", 3: "urn:b", 4: None}
@@ -259,7 +262,7 @@ def _excluded(ops):
 
 
 # quick tier: the third operation of a length-3 history is one of the operations that OBSERVE shared state most directly
-QUICK_THIRDS = [1, 5, 8, 11, 14, 19, 25, 26, 28, 29, 31, 32]
+QUICK_THIRDS = [1, 5, 8, 11, 14, 16, 19, 25, 26, 28, 29, 31, 32, 33, 34, 35]
 
 
 def _third_ok(o2):
